@@ -83,15 +83,18 @@ def replay_sequential(c, graph, n, rng, wd):
             sysm.close()
 
 
-def history_trace(rng, cfg, wd, nhits, maxgap):
-    """A long sequential hit history on the real code, recorded for TLC."""
+def history_trace(rng, cfg, wd, nhits, maxgap, gaps=None):
+    """A long sequential hit history on the real code, recorded for TLC. gaps: a fixed list of time steps between
+    the hits (every hit's condition holds where the settings allow) instead of random ones."""
     sysm = L.LimiterSystem(wd, cfg)
     try:
         with L.Recorder(sysm) as rec:
             now = 1
             kinds = L.cond_kinds(cfg)
-            for _ in range(nhits):
-                gap = rng.choice([0, 0, 1, 1, 2, 2, 3, maxgap])
+            if gaps is not None:
+                kinds = ['true'] if 'true' in kinds else kinds[:1]
+            for h in range(nhits if gaps is None else len(gaps)):
+                gap = rng.choice([0, 0, 1, 1, 2, 2, 3, maxgap]) if gaps is None else gaps[h]
                 if gap:
                     now += gap
                     rec.tick(now)
@@ -239,6 +242,12 @@ def run(c):
         tr, esc = history_trace(rng, cfg, wd, rng.choice([5, 20, 60] if quick else [20, 100, 200]), 7)
         traces.append(tr)
         meta.append({'cfg': cfg, 'errors': esc, 'hits': sum(1 for e in tr if e.get('ev') == 'Arrive')})
+    # bursts: several hits within one clock reading, for every settings record (coarse clocks, tight loops)
+    for cfg in cfgs:
+        for gaps in ([0, 0, 0, 0, 1, 0, 0, 2, 0], [0, 1, 1, 0, 0, 7, 0, 0]):
+            tr, esc = history_trace(rng, cfg, wd, 0, 0, gaps=gaps)
+            traces.append(tr)
+            meta.append({'cfg': cfg, 'errors': esc, 'hits': len(gaps), 'gaps': gaps})
     validate(c, traces, meta, 'history')
     # concurrent schedules
     traces, meta = gate_schedules(c, RACE_CFGS, wd, line_level=False, max_preemptions=8, max_runs=None)
